@@ -469,15 +469,62 @@ func c11FailoverGuard(c *Ctx) {
 			return eqOnTrue, !eqOnTrue
 		})
 		c.verdict(okG, "FailoverGroup.errorFrom:only-observer", st.Pos(), "active is advanced only on the i == active edge", "active is advanced although the failing index is not (or no longer) the active one: concurrent failures skip healthy members")
-		// new value: (active + 1) % len(stores)
-		okV := false
-		if bo, ok := st.Val.(*ssa.BinOp); ok && bo.Op == token.REM {
-			if hasOrigin(bo.Y, func(o string) bool { return o == "len:field:FailoverGroup.stores" }) {
-				if add, ok := bo.X.(*ssa.BinOp); ok && add.Op == token.ADD && hasOrigin(add.X, func(o string) bool { return o == "field:FailoverGroup.active" }) {
-					if k, ok := add.Y.(*ssa.Const); ok && constInt64(k) == 1 {
-						okV = true
+		// new value: (active + 1) % len(stores), or the same written out: x+1 behind x+1 < len(stores)
+		// and 0 behind x+1 >= len(stores), x being active (or the index just found equal to it)
+		var isX func(v ssa.Value) bool
+		isX = func(v ssa.Value) bool {
+			if pr, isP := v.(*ssa.Parameter); isP && newHelpers[pr.Parent()] {
+				h := pr.Parent()
+				for k, hp := range h.Params {
+					if hp != pr {
+						continue
 					}
+					sites := helperSites[h]
+					for _, cs := range sites {
+						if k >= len(cs.Common().Args) || !isX(cs.Common().Args[k]) {
+							return false
+						}
+					}
+					return len(sites) > 0
 				}
+				return false
+			}
+			return hasOrigin(v, func(o string) bool { return o == "field:FailoverGroup.active" }) || (iParam != nil && isParam(v, iParam))
+		}
+		isXp1 := func(v ssa.Value) bool {
+			add, ok := v.(*ssa.BinOp)
+			if !ok || add.Op != token.ADD {
+				return false
+			}
+			if k, ok := add.Y.(*ssa.Const); ok && constInt64(k) == 1 && isX(add.X) {
+				return true
+			}
+			if k, ok := add.X.(*ssa.Const); ok && constInt64(k) == 1 && isX(add.Y) {
+				return true
+			}
+			return false
+		}
+		isLen := func(v ssa.Value) bool {
+			return hasOrigin(v, func(o string) bool { return o == "len:field:FailoverGroup.stores" })
+		}
+		vss := valueSites(st.Val, st.Block(), nil, 0)
+		okV := len(vss) > 0
+		for _, vs := range vss {
+			switch {
+			case func() bool {
+				bo, ok := vs.v.(*ssa.BinOp)
+				return ok && bo.Op == token.REM && isLen(bo.Y) && isXp1(bo.X)
+			}():
+			case isXp1(vs.v):
+				if !siteGuarded(vs, relAcc(token.LSS, isXp1, isLen)) {
+					okV = false
+				}
+			case func() bool { k, ok := vs.v.(*ssa.Const); return ok && k.Value != nil && constInt64(k) == 0 }():
+				if !siteGuarded(vs, relAcc(token.GEQ, isXp1, isLen)) {
+					okV = false
+				}
+			default:
+				okV = false
 			}
 		}
 		c.verdict(okV, "FailoverGroup.errorFrom:next", st.Pos(), "active = (active+1) % len(stores)", "active is not advanced to the next member modulo len(stores)")
